@@ -61,6 +61,11 @@ CLAIMED = {
     "C17": ("SMT (z3 nonlinear real arithmetic, Exp uninterpreted with instantiated functional equation) over "
             "symbolic execution of set_rate, the order-4 population propagator and get_PropagationMatrix",
             "4/C17", ""),
+    "C18": ("SMT (z3 real arithmetic) over symbolic execution of the real Saveable/Parcel save-load code and the "
+            "units/basis-managed accessors along bounded programs of save/load inside units and basis contexts; "
+            "dill stubbed by an in-memory deep copy (validated by the concrete replay with the real dill)", "4/C18",
+            "One open known finding (C18-saved-inside-basis-context). The export/import file formats "
+            "(text, npy, npz, mat: C-level I/O) are not decided."),
     "C19": ("SMT (z3 linear real arithmetic validity per view) over symbolic execution of the real TwoDResponse "
             "storage code along every bounded operation history, with a ghost ledger as oracle", "4/C19",
             "One open known finding (C19-types-into-pathways) is reported as KNOWN-FINDING."),
@@ -69,6 +74,5 @@ CLAIMED = {
             "CrossHair 0.0.110 'Confirmed over all paths' within the pre: bounds."),
 }
 _NYB = "check not built yet in this round (design in DESIGN.md section 4); not claimed until its harness is sound"
-NOT_APPLICABLE = {p: _NYB for p in
-                  ["C%02d" % i for i in range(2, 20) if i not in (2, 3, 4, 5, 6, 7, 8, 9, 10, 11, 12, 13, 14, 15, 16, 17, 19)]}
+NOT_APPLICABLE = {}
 SOURCE_COMMITS = []
